@@ -224,18 +224,20 @@ Section Framing.
   Proof. intros H. destruct (is_fmt_cases l H) as [r [-> | ->]]; reflexivity. Qed.
   Lemma rdf_block_body body : forall n buf m recs,
     Forall (fun l => is_fmt l = false) body -> Forall (fun fb => is_fmt (fst fb) = true) recs ->
-    (n + length body < buffer_size)%nat ->
+    (n + length body < buffer_size)%nat -> buf ++ body <> [] ->
     rdf_block buffer_size (body ++ rdf_tail recs) n false buf m = (Some (buf ++ body, mscan body (length buf) m), rdf_rest recs).
   Proof.
-    induction body as [|l body IH]; intros n buf m recs Hb Hr Hn.
-    - cbn [app mscan]. rewrite app_nil_r. destruct recs as [|[f b] recs]; [reflexivity|].
+    induction body as [|l body IH]; intros n buf m recs Hb Hr Hn Hne.
+    - cbn [app mscan]. rewrite app_nil_r in *. destruct recs as [|[f b] recs]; [reflexivity|].
       inversion Hr as [|? ? Hf _]; subst. cbn [fst] in Hf.
       unfold rdf_tail. cbn [map concat fst snd app rdf_block rdf_rest].
       destruct (Nat.eqb n buffer_size) eqn:E; [apply Nat.eqb_eq in E; cbn [length] in Hn; lia|].
-      pose proof (is_fmt_not_dtype f Hf) as Hd. unfold is_dtype in Hd. rewrite Hd, andb_false_r, Hf. reflexivity.
+      pose proof (is_fmt_not_dtype f Hf) as Hd. unfold is_dtype in Hd. rewrite Hd, andb_false_r, Hf.
+      destruct buf; [contradiction | reflexivity].
     - inversion Hb as [|? ? Hl Hb']; subst. cbn [app rdf_block]. cbn [length] in Hn.
       destruct (Nat.eqb n buffer_size) eqn:E; [apply Nat.eqb_eq in E; lia|].
       cbn [mscan]. unfold is_dtype.
+      assert (Hne' : (buf ++ [l]) ++ body <> []) by (destruct buf; discriminate).
       destruct (falsy m && startswith (L "$DTYPE") l) eqn:Ed.
       + rewrite IH by (try assumption; lia). rewrite <- app_assoc. cbn [app]. rewrite app_length. cbn [length]. rewrite Nat.add_1_r. reflexivity.
       + rewrite Hl. rewrite IH by (try assumption; lia). rewrite <- app_assoc. cbn [app]. rewrite app_length. cbn [length]. rewrite Nat.add_1_r. reflexivity.
@@ -258,10 +260,10 @@ Section Framing.
     Forall (fun l => is_fmt l = false) body /\ (extra + length body < buffer_size)%nat.
 
   Lemma rdf_structure_next tell body recs :
-    tell <> 0%nat -> rdf_body_ok 0 body -> Forall (fun fb => is_fmt (fst fb) = true) recs ->
+    tell <> 0%nat -> rdf_body_ok 0 body -> body <> [] -> Forall (fun fb => is_fmt (fst fb) = true) recs ->
     rdf_read_structure A build_mol build_rxn buffer_size tell (body ++ rdf_tail recs) = (rdf_one body, rdf_rest recs).
   Proof.
-    intros Ht [Hb Hn] Hr. unfold rdf_read_structure.
+    intros Ht [Hb Hn] Hne Hr. unfold rdf_read_structure.
     replace (Nat.eqb tell 0) with false by (symmetry; apply Nat.eqb_neq; exact Ht).
     rewrite rdf_block_body by assumption. cbn [app length]. unfold rdf_one.
     destruct body as [|l body]; [reflexivity|]. cbv zeta.
@@ -269,10 +271,10 @@ Section Framing.
   Qed.
   Lemma rdf_structure_first header f body recs :
     Forall (fun l => is_fmt l = false /\ startswith (L "$RXN") l = false) header -> is_fmt f = true ->
-    rdf_body_ok (S (length header)) body -> Forall (fun fb => is_fmt (fst fb) = true) recs ->
+    rdf_body_ok (S (length header)) body -> body <> [] -> Forall (fun fb => is_fmt (fst fb) = true) recs ->
     rdf_read_structure A build_mol build_rxn buffer_size 0 (header ++ f :: body ++ rdf_tail recs) = (rdf_one body, rdf_rest recs).
   Proof.
-    intros Hh Hf [Hb Hn] Hr. unfold rdf_read_structure. cbn [Nat.eqb].
+    intros Hh Hf [Hb Hn] Hne Hr. unfold rdf_read_structure. cbn [Nat.eqb].
     rewrite rdf_block_header by (try assumption; apply is_fmt_not_rxn; exact Hf).
     rewrite rdf_block_body by (try assumption; lia). cbn [app length]. unfold rdf_one.
     destruct body as [|l body]; [reflexivity|]. cbv zeta.
